@@ -131,8 +131,9 @@ class Repo:
                 tree = ast.parse(src, filename=str(path))
             except SyntaxError as e:  # the tree under analysis must parse
                 raise Unsupported(f'{rel}: does not parse: {e}') from e
-            from .inline import inline_local_procedures
+            from .inline import expand_keyword_dicts, inline_local_procedures
             inline_local_procedures(tree)
+            expand_keyword_dicts(tree)
             mod = Module(
                 name=name,
                 path=path,
